@@ -32,6 +32,7 @@ macro_rules! stubset {
 	};
 }
 pub const KIB16: usize = 16 * 1024;
+stubset!(le_0, 0);
 stubset!(le_64, 64);
 stubset!(le_256, 256);
 stubset!(le_16k, KIB16 + 64);
